@@ -359,7 +359,7 @@ class SigmaClip(E):
             cs.append({"x": [4.0, 4.0, 4.0], "w": None, "nsig": 3.0, "niter": 4, "family": "constant-data"})
             cs.append({"x": [1.0, 2.0, 3.0], "w": [1.0, 2.0], "nsig": 3.0, "niter": 4, "family": "rejected-size"})
             cs.append({"x": [[1.0, 2.0], [3.0, 4.0]], "w": None, "nsig": 3.0, "niter": 4, "family": "rejected-2d"})
-        for _ in range(ctx.n(170, 1500) if round == 0 else 80):
+        for _ in range(ctx.n(170, 1000) if round == 0 else 80):
             cs.append(_clip_case(r, ctx))
         return cs
 
